@@ -364,7 +364,8 @@ func (s *Sim) SleepUntil(d time.Duration) {
 	time.Sleep(d - now)
 	synctest.Wait()
 	for _, t := range s.tasks {
-		if t.state == stParked && t.Stalled {
+		if t.state == stParked && t.Point != "task.start" && t.ParkedAt < s.Now() {
+			t.Stalled = true
 			t.StallEnd = s.Now() // still stalled: running maximum
 		}
 	}
